@@ -314,7 +314,13 @@ def run_case(case, ctx):
         return Fxp(cy, fy[0], fy[1], fy[2], raw=True, rounding=ry, overflow=oy, op_method=method)
 
     def mkt():
-        return Fxp(None, ft[0], ft[1], ft[2], rounding=rt, overflow=ot)
+        t = Fxp(None, ft[0], ft[1], ft[2], rounding=rt, overflow=ot)
+        if i % 5 == 0:
+            # a target / template that already carries raised flags: out keeps them (sticky), an out_like result starts clean
+            _try(lambda: t(float(t.upper) * 4 + 1.3))
+            _try(lambda: t(float(t.lower) * 4 - 1.3))
+            _try(lambda: t(0))
+        return t
 
     ops = {'add': (lambda a, b: a + b, fm.add, np.add), 'sub': (lambda a, b: a - b, fm.sub, np.subtract), 'mul': (lambda a, b: a * b, fm.mul, np.multiply)}
     op = ('add', 'sub', 'mul')[(i // 2) % 3]
